@@ -43,6 +43,7 @@ func NewRmaWithPeriod[T helper.Number](period int) *Rma[T] {
 func (r *Rma[T]) Compute(c <-chan T) <-chan T {
 	result := make(chan T, cap(c))
 
+	helper.VerifStage("XmaCore", r.Period, []any{c}, []any{result})
 	go func() {
 		defer close(result)
 
